@@ -492,6 +492,14 @@ def gen_timed_blocks(rng, sr, span, kind, feat):
                     feat.add("zero:interpolationLength=0")
             else:
                 feat.add("interp-full")
+                if rng.random() < 0.45:
+                    # jumpPosition flag False that still carries an interpolationLength (legal in the data model and
+                    # in XML): the length is ignored, the ramp spans the whole block
+                    j = rng.choice(["0", "shorter", "shorter", "equal", "longer"])
+                    il = {"0": F(0), "shorter": dur * F(rng.randint(1, 3), 4), "equal": dur,
+                          "longer": dur + _q(rng, 1, 3)}[j]
+                    b["il"] = frs(il / sr)
+                    feat.add("noflag-IL:" + j)
         blocks.append(b)
         t += dur
     return blocks, t
@@ -565,6 +573,9 @@ def gen_item(rng, sc, kind, feat):
         if untimed:
             blocks, end = [dict(rt=None, du=None, jump=0, il=None)], None
             feat.add("untimed-block")
+            if kind == "O" and rng.random() < 0.3:
+                blocks[0]["il"] = frs(_q(rng, 0, 3) / sr)  # flag False: ignored
+                feat.add("noflag-IL:untimed")
         else:
             blocks, end = gen_timed_blocks(rng, sr, span, kind, feat)
         od = None
